@@ -1087,6 +1087,7 @@ def make_builtins(it):
     def sp_isspace(it2, c):
         return V.char_pred('isspace', V.char_at(c, 0) if is_str(c) else c)
 
+    b['open'] = Builtin('open', lambda it2, a, k: _lib_call(it2, 'open', a, k))
     b['forall'] = SpecFn('forall', sp_forall)
     b['exists'] = SpecFn('exists', sp_exists)
     b['implies'] = SpecFn('implies', sp_implies)
